@@ -336,6 +336,8 @@ class Chains:
                     y = self.value(a[1], env)
                 else:
                     y, yp = self.apply(a[1], [])
+                    # what the closure answers may itself be a pipeline over a captured collection
+                    y = [(z3.And(c2, c3), t3) for c2, t2 in y for c3, t3 in self.value(t2, env)]
                     self.panics.append(z3.And(z3.Not(self.is_some(x)), yp))
                 out = []
                 for c, tt in x:
